@@ -105,6 +105,21 @@ pub fn parse_files(
             );
         }
     }
+    // An include statement which cannot be resolved is reported where it is. If that is in a
+    // file which was itself only included the report is not shown, so the missing file is
+    // also reported at the include statements through which that file is reached.
+    for (include, file_path) in file_stack.unresolved() {
+        for site in file_stack.included_from(file_path) {
+            reports.push(
+                errors::IncludeError {
+                    path: include.path.clone(),
+                    file_id: site.meta.file_id,
+                    file_location: site.meta.file_location(),
+                }
+                .into_report(),
+            );
+        }
+    }
     for (file_path, error) in unreadable {
         let includes = file_stack.included_from(&file_path);
         if includes.is_empty() {
